@@ -44,8 +44,14 @@ for key, what in (
     ('xarray:table:starting-only:wrong-rows:window-ignored', 'a window with only `starting` is ignored: every row is evaluated.'),
     ('xarray:table:ending-only:wrong-rows:window-ignored', 'a window with only `ending` is ignored: every row is evaluated.'),
     ('xarray:table:unexpected-results', 'consequently the results carry row masks that no configured window accounts for (same construct).'),
+    ('xarray:non-monotonic-time:both:wrong-rows:other-rows', 'rows that are not in chronological order (or a NaT among the stamps) make the time index non-monotonic: the label slice is then positional between the rows carrying the two bound labels (often empty), not a predicate on each row\'s time.'),
+    ('xarray:non-monotonic-time:starting-only:wrong-rows:window-ignored', 'a window with only `starting` is ignored (as on a sorted table), also on a non-monotonic time axis.'),
+    ('xarray:non-monotonic-time:ending-only:wrong-rows:window-ignored', 'a window with only `ending` is ignored (as on a sorted table), also on a non-monotonic time axis.'),
+    ('xarray:non-monotonic-time:unexpected-results', 'the results carry row masks that no configured window accounts for (same construct, non-monotonic time axis).'),
+    ('xarray:raises-KeyError:unsorted-times', 'on a non-monotonic time index a window bound that is not exactly one of the stamps makes the label slice raise KeyError ("Cannot get right slice bound for non-monotonic index with a missing label"): XarrayStream.run aborts. Reproduced with real xarray.'),
+    ('xarray:raises-KeyError:row-without-timestamp', 'a NaT among the stamps makes the time index non-monotonic as well: same KeyError for a bound that is not a stamp.'),
 ):
-    findings.append(dict(property='C05', rule='C05.extra' if key.endswith('results') else 'C05.rows', key=key, status='known',
+    findings.append(dict(property='C05', rule='C05.run' if ':raises-' in key else 'C05.extra' if key.endswith('results') else 'C05.rows', key=key, status='known',
                          what=XR + ' ' + what, why_not_fixed='needs a redesign of the label-to-index reconstruction in XarrayStream.run (half-open interval, open bounds); not a small patch.'))
 
 for key in ('collect_results_list:raises-ValueError:scatter-of-an-empty-axis-array:table=time-only',
@@ -74,6 +80,22 @@ for key, rule in (('pandas:duplicate-labels:both:wrong-rows:window-ignored', 'C0
         why_not_fixed='needs positional bookkeeping through the successive .loc filters (a small refactor of PandasStream.run, not a one-line repair); '
                       'the earlier positional variant (iloc) was wrong for every non-default index and was fixed in 74329b5.'))
 
+findings.append(dict(
+    property='C19', rule='C19.columns', key='PandasStore.save:cf-clashing-ids:result-lost', status='known',
+    what='two stream ids that are equal once made CF-safe (e.g. "sal.t" and "sal t" -> "sal_t") map to the same column label: PandasStore.save keeps one column and '
+         'drops the other result (with a warning), so not every collected result gets a uniquely named column. Reproduced on the real library '
+         '(2 collected results, 1 result column).',
+    why_not_fixed='needs a naming decision (how to disambiguate clashing labels) that also affects CFNetCDFStore variable names; not a one-line repair.'))
+
+for tok in ('.5', '1_0', 'inf', 'nan'):
+    findings.append(dict(
+        property='C20', rule='C20.validate', key=f'number-token:{tok}:accepted-but-not-evaluated', status='known',
+        what=f'QcVariableConfig._validate_fx recognises numbers with float(), the expression grammar of fx_parser with its own pattern: the token {tok!r} is accepted as a '
+             f'number by the validator but eval_fx({tok!r}) raises (ParseException for .5 and 1_0, "invalid identifier" for inf and nan), so a validated '
+             'specification cannot be evaluated. Reproduced on the real library.',
+        why_not_fixed='either the validator has to be narrowed to the grammar or the grammar widened (leading-dot numbers); which tokens count as numbers is a '
+                      'maintainer decision.'))
+
 fixed = [
     'fixed: property=C09 968352c spike_test ignored suspect_threshold=0 / fail_threshold=0 (truthiness gates); also the C16 clause "a threshold given as zero"',
     'fixed: property=C10 cee7a58 rate_of_change_test accepted inp / tinp of different lengths (silent broadcast) instead of raising ValueError',
@@ -92,6 +114,17 @@ fixed = [
     'another context for the same stream and test: the all-covering branch aliased the stream arrays, which are read-only views under pandas >= 3',
     'fixed: property=C15 4940b13 mapdates read epoch seconds held in a pandas Series / Index as nanoseconds since 1970 (the same numbers in a list or ndarray '
     'are read as seconds): rate_of_change_test / flat_line_test / attenuated_signal_test / speed_test / climatology_test gave other flags or raised',
+    'fixed: property=C11 7a8a0ca flat_line_test (and the min_period conversion of attenuated_signal_test, C12) truncated the sampling step to whole seconds: '
+    'with 2.5 s data k = floor(threshold / D) was computed from D = 2 s ([1,1,3,3,3,4,4,4] instead of [1,1,3,3,4,4,4,4] for thresholds 5 / 10), '
+    'with sub-second data D became 0 and flat_line_test raised ValueError; duration thresholds were truncated with int()',
+    'fixed: property=C03 b3f5969 valid_range_test cast its bounds to the data dtype: integer data with the span (1.5, 2.5) gave [1,4,4] instead of [4,1,4], '
+    'a None bound raised TypeError for integer data, a bound at noon was truncated to midnight for datetime64[D] data',
+    'fixed: property=C06 90cacb3 collect_results_list scattered data / tinp / zinp / lat / lon only into the collected result of the last test of a '
+    'ContextResult; the other tests of the same ContextResult kept fully masked arrays',
+    'fixed: property=C20 6c6e291 QcConfigCreator._get_subset widened the bounding box whenever the values inside it summed to zero (np.nansum(subset) == 0 as the '
+    'no-data test): statistics came from a padded box for signed quantities and all-zero fields',
+    'fixed: property=C07 fd1142e a configured test name that is some other attribute of the package module was not skipped: np / L under qartod made Config raise '
+    'TypeError (every call lost), QartodFlags / span / mapdates produced calls that are not tests (also C18: the run did not complete)',
 ]
 
 (ROOT / 'known_findings.json').write_text(json.dumps(dict(
